@@ -502,6 +502,20 @@ func (bc *boundsCtx) intrinsicLen(x ast.Expr, use Pt, facts []linFact) (min int6
 			}
 		}
 	}
+	// any element M[i] of a FindAllStringSubmatch result: len = groups+1
+	if ix, ok := x.(*ast.IndexExpr); ok {
+		src := ast.Unparen(ix.X)
+		if so := objOf(info, src); so != nil {
+			if def, n := localDef(info, bc.r.FI.Decl.Body, so); n == 1 && def != nil {
+				src = ast.Unparen(def)
+			}
+		}
+		if call, ok := src.(*ast.CallExpr); ok && isCall(info, call, "regexp.Regexp.FindAllStringSubmatch", "regexp.Regexp.FindAllSubmatch") {
+			if n, ok := bc.regexpGroups(callRecv(call)); ok {
+				return int64(n + 1), "sub-matches of a constant regexp with " + itoa(n) + " group(s)"
+			}
+		}
+	}
 	if o := objOf(info, x); o != nil {
 		// value variable of a range over FindAllStringSubmatch: len = groups+1
 		for _, rs := range rangesIn(bc.r.FI.Decl.Body, func(rs *ast.RangeStmt) bool { return rs.Value != nil && objOf(info, rs.Value) == o }) {
